@@ -2835,8 +2835,10 @@ package goatlang
 //@   ensures#resized calls("(*parser).Expression") == calls("assignResize")
 //@ func getDecl loop 0
 //@   invariant p != nil && decl != nil && left != nil
+//@   invariant#nocalls calls("(*parser).Expression") == 0 && calls("assignResize") == 0
 //@ func getDecl loop 1
 //@   invariant p != nil && decl != nil && left != nil
+//@   invariant#nocalls calls("(*parser).Expression") == 0 && calls("assignResize") == 0
 //@ func assignLed
 //@   property C07 C09
 //@   requires p != nil && t != nil
